@@ -174,7 +174,7 @@ def run(ctx):
     shard_dir = os.path.join(ROOT, f"shard{ctx.shard}")
     os.makedirs(shard_dir, exist_ok=True)
     state = {"batch": 0}
-    nfiles = ctx.scale(352, 9600)
+    nfiles = ctx.scale(288, 9600)
     nbatches = max(1, -(-nfiles // BATCH))
     rot = ctx.shard + 16 * ctx.seed
 
